@@ -992,6 +992,9 @@ func (a *ownAnalyzer) call(y *ast.CallExpr, st *ownState, n int) ([]ocls, []bool
 			// evaluated in place: allowed on borrowed data by design (process1); counts as a heap modification
 			if fsel, ok := ar.(*ast.SelectorExpr); ok {
 				a.fieldWrite(fsel, st)
+			} else if c.heap {
+				// a tree reached from the heap (a stored document) is rewritten in place
+				a.recordWrite("Document.Data", -2, a.pos(ar.Pos())+" (in-place evaluation of data reachable from stored documents)")
 			}
 		case "mutates":
 			bv := a.varOf(ar)
